@@ -47,6 +47,7 @@ impl EventParser {
                 syn::Item::Fn(func) => {
                     self.extract_events_from_fn(
                         &func.sig,
+                        None,
                         &func.block,
                         file_path,
                         type_resolver,
@@ -63,6 +64,7 @@ impl EventParser {
                         if let syn::ImplItem::Fn(method) = impl_item {
                             self.extract_events_from_fn(
                                 &method.sig,
+                                Some(&item_impl.generics),
                                 &method.block,
                                 file_path,
                                 type_resolver,
@@ -79,6 +81,7 @@ impl EventParser {
     fn extract_events_from_fn(
         &self,
         sig: &syn::Signature,
+        impl_generics: Option<&syn::Generics>,
         block: &syn::Block,
         file_path: &Path,
         type_resolver: &mut TypeResolver,
@@ -88,10 +91,10 @@ impl EventParser {
         let mut symbols = SymbolTable::new();
         self.extract_param_types(&sig.inputs, &mut symbols);
 
-        // A generic type parameter (fn notify<T: Serialize>(.., payload: T)) names no
-        // type of the project: such a payload is `unknown`
-        for type_param in sig.generics.type_params() {
-            let generic = type_param.ident.to_string();
+        // A generic type parameter (fn notify<T: Serialize>(.., payload: T), or the T of
+        // impl<T> Bus<T>) names no type of the project: such a payload is `unknown`
+        let generics = std::iter::once(&sig.generics).chain(impl_generics);
+        for generic in generics.flat_map(|g| g.type_params().map(|p| p.ident.to_string())) {
             for declared in symbols.values_mut() {
                 if declared
                     .split(|c: char| !(c.is_alphanumeric() || c == '_'))
